@@ -499,4 +499,168 @@ theorem set_leaf_rt (t : Ty) (v : Val) (hw : t.WF) (hc : Conf t v) (hs : vsize t
   · simp only [hin, if_false]
     exact hm i h1 h2
 
+/-- **a part of a written object is a written object**: a memory that holds the written object `v : t` on its extent holds,
+on the extent of its `k`-th part, that part written at its offset (into some memory of the same length) - so everything proved
+for written objects (what a view reads, the header words, the strides, item addresses, sizes) holds for every nested part, at
+every depth -/
+theorem part_agree (t : Ty) (v : Val) (hw : t.WF) (hc : Conf t v) (k o : Nat) (t' : Ty) (v1 : Val)
+    (hp : part t v k = some (o, t', v1)) (m0 : Mem) (off : Nat) (hb : off + vsize t v ≤ m0.length) (m' : Mem)
+    (hag : Agree m' (apply (shift off (patchesD t v)) m0) off (off + vsize t v)) :
+    t'.WF ∧ Conf t' v1 ∧ o + vsize t' v1 ≤ vsize t v ∧
+    ∃ m1 : Mem, m1.length = m0.length ∧
+      Agree m' (apply (shift (off + o) (patchesD t' v1)) m1) (off + o) (off + o + vsize t' v1) := by
+  obtain ⟨g1, g2, g3, Pre, Post, g4, g5, _⟩ := part_decomp t v k o t' v1 hw hc hp
+  refine ⟨g1, g2, g3, apply (shift off Pre) m0, ?_, ?_⟩
+  · apply apply_length
+    intro q hq
+    have hall : InBounds (shift off (patchesD t v)) m0.length := inBounds_shift_of_within (withinD t v hw hc) hb
+    apply hall q
+    rw [g4, shift_append, shift_append]
+    exact List.mem_append_left _ (List.mem_append_left _ hq)
+  · have hall : InBounds (shift off (patchesD t v)) m0.length := inBounds_shift_of_within (withinD t v hw hc) hb
+    rw [g4, shift_append, shift_append, shift_shift] at hall hag
+    have hpre : InBounds (shift off Pre) m0.length := fun q hq => hall q (List.mem_append_left _ (List.mem_append_left _ hq))
+    have hP : InBounds (shift (off + o) (patchesD t' v1)) m0.length :=
+      fun q hq => hall q (List.mem_append_left _ (List.mem_append_right _ hq))
+    have hpost : InBounds (shift off Post) m0.length := fun q hq => hall q (List.mem_append_right _ hq)
+    have hout : Outside (shift off Post) (off + o) (off + o + vsize t' v1) := by
+      have := outside_shift (d := off) g5
+      exact outside_mono this (by omega) (by omega)
+    have hap := agree_part (shift off Pre) (shift (off + o) (patchesD t' v1)) (shift off Post) m0 (off + o)
+      (off + o + vsize t' v1) hpre hP hpost hout
+    exact agree_trans (agree_mono hag (by omega) (by omega)) hap
+
+/-- along a whole path: the scalar leaf a path ends in is, in any memory holding the written object, a written scalar at the
+leaf's address - the view reads the leaf's value there -/
+theorem leaf_read : ∀ (p : List Nat) (t : Ty) (v : Val) (lo w : Nat), t.WF → Conf t v → vsize t v < 2 ^ 64 →
+    leafAt t v p = some (lo, w) → ∀ (m0 : Mem) (off : Nat), off + vsize t v ≤ m0.length → ∀ (m' : Mem),
+    Agree m' (apply (shift off (patchesD t v)) m0) off (off + vsize t v) →
+    ∃ b, b < 256 ^ w ∧ getAt t v p = some b ∧ updAt t v p b = some v ∧ fromLE (readAt m' (off + lo) w) = b
+ | [], .scalar w', .bits b0, lo, w, _, hc, _, h, m0, off, hb, m', hag => by
+    simp only [leafAt, Option.some.injEq, Prod.mk.injEq] at h
+    obtain ⟨rfl, rfl⟩ := h
+    have hb0 : b0 < 256 ^ w' := by simpa [Conf] using hc
+    refine ⟨b0, hb0, by simp [getAt], by simp [updAt], ?_⟩
+    have hv : vsize (.scalar w') (.bits b0) = w' := by simp [vsize]
+    rw [hv] at hb hag
+    simp only [patchesD, shift_cons, shift_nil, apply, List.foldl_cons, List.foldl_nil, Nat.zero_add, Nat.add_zero] at hag ⊢
+    rw [readAt_agree hag (Nat.le_refl _) (Nat.le_refl _)]
+    have := readAt_writeAt_same m0 off (le w' b0) (by rw [le_length]; exact hb)
+    rw [le_length] at this
+    rw [this, fromLE_le, Nat.mod_eq_of_lt hb0]
+ | [], .scalar _, .str _, _, _, _, hc, _, _, _, _, _, _, _ | [], .scalar _, .cap _, _, _, _, hc, _, _, _, _, _, _, _
+ | [], .scalar _, .struct _, _, _, _, hc, _, _, _, _, _, _, _ | [], .scalar _, .arr _ _, _, _, _, hc, _, _, _, _, _, _, _ => by
+    simp [Conf] at hc
+ | [], .string, _, _, _, _, _, _, h, _, _, _, _, _ | [], .struct _, _, _, _, _, _, _, h, _, _, _, _, _
+ | [], .array _ _ _, _, _, _, _, _, _, h, _, _, _, _, _ => by simp [leafAt] at h
+ | k :: p, t, v, lo, w, hw, hc, hs, h, m0, off, hb, m', hag => by
+    simp only [leafAt] at h
+    rcases hpart : part t v k with _ | ⟨o, t', v1⟩
+    · simp [hpart] at h
+    simp only [hpart] at h
+    rcases hleaf : leafAt t' v1 p with _ | ⟨lo', w'⟩
+    · simp [hleaf] at h
+    simp only [hleaf, Option.map_some, Option.some.injEq, Prod.mk.injEq] at h
+    obtain ⟨rfl, rfl⟩ := h
+    obtain ⟨g1, g2, g3, m1, hl1, hag1⟩ := part_agree t v hw hc k o t' v1 hpart m0 off hb m' hag
+    obtain ⟨b, hb1, hg, hu, hr⟩ := leaf_read p t' v1 lo' w' g1 g2 (by omega) hleaf m1 (off + o) (by rw [hl1]; omega) m' hag1
+    refine ⟨b, hb1, by simp [getAt, hpart, hg], ?_, by rw [← Nat.add_assoc]; exact hr⟩
+    simp only [updAt, hpart, hu, Option.map_some]
+    -- replacing a part by itself is the identity
+    have hid : ∀ (t : Ty) (v : Val) (k o : Nat) (t' : Ty) (v1 : Val), part t v k = some (o, t', v1) → setPartV v k v1 = v := by
+      intro t v k o t' v1 hp
+      have hset : ∀ (vs : List Val) (k : Nat) (x : Val), vs[k]? = some x → setNth vs k x = vs := by
+        intro vs
+        induction vs with
+        | nil => intro k x h; simp at h
+        | cons a r ih =>
+          intro k x h
+          cases k with
+          | zero => simp at h; simp [setNth, h]
+          | succ k => simp at h; simp [setNth, ih k x h]
+      have hsP : ∀ (fs : List Ty) (vs : List Val) (k o o' : Nat) (t' : Ty) (x : Val), sPart fs vs k o = some (o', t', x) → vs[k]? = some x := by
+        intro fs
+        induction fs with
+        | nil => intro vs k o o' t' x h; simp [sPart] at h
+        | cons f fr ih =>
+          intro vs k o o' t' x h
+          cases vs with
+          | nil => simp [sPart] at h
+          | cons a r =>
+            cases k with
+            | zero => simp [sPart] at h; simp [h.2.2]
+            | succ k => simp only [sPart] at h; simpa using ih r k _ o' t' x h
+      have hdP : ∀ (fs : List Ty) (vs : List Val) (k so dof o' : Nat) (t' : Ty) (x : Val), dPart fs vs k so dof = some (o', t', x) → vs[k]? = some x := by
+        intro fs
+        induction fs with
+        | nil => intro vs k so dof o' t' x h; simp [dPart] at h
+        | cons f fr ih =>
+          intro vs k so dof o' t' x h
+          cases vs with
+          | nil => simp [dPart] at h
+          | cons a r =>
+            simp only [dPart] at h
+            cases k with
+            | zero => split at h <;> simp at h <;> simp [h.2.2]
+            | succ k =>
+              split at h
+              · simp only [Nat.add_one_ne_zero, if_false, Nat.add_sub_cancel] at h; simpa using ih r k _ _ o' t' x h
+              · simp only [Nat.add_one_ne_zero, if_false, Nat.add_sub_cancel] at h; simpa using ih r k _ _ o' t' x h
+      have hiS : ∀ (isz : Nat) (items : List Val) (k pos o' : Nat) (x : Val), itemS isz items k pos = some (o', x) → items[k]? = some x := by
+        intro isz items
+        induction items with
+        | nil => intro k pos o' x h; simp [itemS] at h
+        | cons a r ih =>
+          intro k pos o' x h
+          cases k with
+          | zero => simp [itemS] at h; simp [h.2]
+          | succ k => simp only [itemS] at h; simpa using ih k _ o' x h
+      have hiD : ∀ (sz : Val → Nat) (items : List Val) (k pos o' : Nat) (x : Val), itemD sz items k pos = some (o', x) → items[k]? = some x := by
+        intro sz items
+        induction items with
+        | nil => intro k pos o' x h; simp [itemD] at h
+        | cons a r ih =>
+          intro k pos o' x h
+          cases k with
+          | zero => simp [itemD] at h; simp [h.2]
+          | succ k => simp only [itemD] at h; simpa using ih k _ o' x h
+      cases t with
+      | scalar _ => simp [part] at hp
+      | string => simp [part] at hp
+      | struct fs =>
+        cases v with
+        | struct vs =>
+          simp only [part] at hp
+          simp only [setPartV]
+          congr 1
+          split at hp
+          · exact hset vs k v1 (hsP fs vs k 0 o t' v1 hp)
+          · exact hset vs k v1 (hdP fs vs k 8 _ o t' v1 hp)
+        | _ => simp [part] at hp
+      | array it shape order =>
+        cases v with
+        | arr sh items =>
+          simp only [part] at hp
+          simp only [setPartV]
+          congr 1
+          split at hp
+          · rcases h1 : itemS (ainfo it shape).unit items k 0 with _ | ⟨o2, x⟩
+            · simp [h1] at hp
+            · simp only [h1, Option.map_some, Option.some.injEq, Prod.mk.injEq] at hp
+              obtain ⟨_, _, rfl⟩ := hp
+              exact hset items k x (hiS _ items k 0 o2 x h1)
+          · split at hp
+            · rcases h1 : itemS (ainfo it shape).unit items k (ainfo it shape).dataOff with _ | ⟨o2, x⟩
+              · simp [h1] at hp
+              · simp only [h1, Option.map_some, Option.some.injEq, Prod.mk.injEq] at hp
+                obtain ⟨_, _, rfl⟩ := hp
+                exact hset items k x (hiS _ items k _ o2 x h1)
+            · rcases h1 : itemD (vsize it) items k ((ainfo it shape).dataOff + 8 * items.length) with _ | ⟨o2, x⟩
+              · simp [h1] at hp
+              · simp only [h1, Option.map_some, Option.some.injEq, Prod.mk.injEq] at hp
+                obtain ⟨_, _, rfl⟩ := hp
+                exact hset items k x (hiD _ items k _ o2 x h1)
+        | _ => simp [part] at hp
+    rw [hid t v k o t' v1 hpart]
+
 end Lay
